@@ -14,7 +14,7 @@ def nontrivial(specs):
         objs = [rec['target']] + [o for o in rec['args'] if o is not None and o not in rec['created']]
         if rec['destroyed'] is not None:
             objs.append(rec['destroyed'])
-        if any(o.gen >= 1 for o in objs):
+        if any(not o.ghost and o.gen >= 1 for o in objs):
             return True
     return False
 
